@@ -51,6 +51,42 @@ fn c09_node_key_offset_k1() {
     kani::cover!(ub == 2 && n == 3 && keys[1] == q, "equal to an inner key");
 }
 
+/// C09 node_binary_search: the in-node search over serialized keys finds an equal key (Ok(i)) or the insertion point
+/// (Err(i)) on every sorted node of n <= 4 one-byte keys.
+#[kani::proof]
+#[kani::unwind(5)]
+fn c09_node_binary_search_k1() {
+    let n: usize = kani::any();
+    kani::assume(n >= 1 && n <= 4);
+    let keys: [u8; 4] = kani::any();
+    kani::assume(n < 2 || keys[0] < keys[1]);
+    kani::assume(n < 3 || keys[1] < keys[2]);
+    kani::assume(n < 4 || keys[2] < keys[3]);
+    let q: u8 = kani::any();
+    let key = ArrayKey::<1>::from([q]);
+    let r = Node::binary_search_serialized(&key, &keys[..n]);
+    let mut below = 0;
+    let mut eq: Option<usize> = None;
+    let mut i = 0;
+    while i < 4 {
+        if i < n && keys[i] < q {
+            below += 1;
+        }
+        if i < n && keys[i] == q {
+            eq = Some(i);
+        }
+        i += 1;
+    }
+    match (r, eq) {
+        (Ok(p), Some(e)) => assert!(p == e),
+        (Err(p), None) => assert!(p == below),
+        _ => assert!(false),
+    }
+    kani::cover!(eq.is_some() && n == 4, "hit in a full node");
+    kani::cover!(eq.is_none() && below == n, "above all keys");
+    kani::cover!(eq.is_none() && below == 0, "below all keys");
+}
+
 /// C09/C17: Node::new_serialized emits NodeMeta | keys | offsets in that order, and the size formula agrees.
 #[kani::proof]
 #[kani::unwind(8)]
